@@ -148,7 +148,7 @@ def check(ctx):
     rf = Roles(f)
     comp = [s for s in rf.stmts if isinstance(s, ast.Assign) and dotted(s.targets[0]) == "value"]
     t = str(rf.at(comp[0], comp[0].value)) if comp else ""
-    ctx.check(t == "[_convert_form_name_to_level(level_name, _convert_from_name_to_factor(factor_name, design)) for level_name in sample[factor_name]]",
+    ctx.check(t == "[_convert_form_name_to_level(_b0, _convert_from_name_to_factor(factor_name, design)) for _b0 in sample[factor_name]]",
               "C17.factors", f, "conversion", "level names are converted position by position", "sample conversion is `%s`" % t)
 
     mod = sys.modules[__name__]
